@@ -128,6 +128,10 @@ class Identifier(Node):
                             parsed_names.append(parsed)
                     else:
                         # NOTE(saschpe): Maybe this code can be expressed with permutations too?
+                        if name[0] == "@media":
+                            # an at-rule is not prefixed with (or repeated per) parent selector
+                            parsed_names.append(name)
+                            continue
                         for part in parent.parsed:
                             if part and part[0] not in self._subp:
                                 parsed = []
